@@ -58,11 +58,18 @@ def linear_shapes(tier, seed):
     return shapes
 
 
-def solve(k, shape, max_iter, history=None, shared_start=False):
+def solve(k, shape, max_iter, history=None, shared_start=False, reuse_edges=False):
     ghost = common.Ghost()
     g, vs, es = graphs.build(k, shape, ghost)
     dims = [POSE_C[T] for _, T, _ in shape["vertices"]]
     fixed_pos = graphs.fixed_positions(shape)
+    if reuse_edges:
+        # solve the same measurements a second time from another initial guess: the SAME edge objects, new Vertex objects
+        with common.counting_spsolve(k, ghost):
+            g.optimize(max_iter=1, tol=k.pos("tol"), verbose=False, fix_first_pose=False)
+        vs = [k.r.Vertex(v.id, k.pose(shape["vertices"][p_][1], "w%d" % p_), fixed=v.fixed) for p_, v in enumerate(vs)]
+        g = k.r.Graph(es, list(reversed(vs)))
+        ghost.s = 0
     start = None
     if shared_start:
         # "whatever the initial guess": every free vertex starts at the same point, and the poses are built from ONE array object
@@ -183,6 +190,14 @@ def obligations(r, tier, seed):
                 solve(k, shape, None, history)
             obs.append(Ob("C04/global-optimum-after-earlier-calls/%s/%s" % (shape["name"], hname), solve_h, scope="shape-bounded",
                           bound="shape %s, %d earlier call(s)" % (shape["name"], len(history)), funcs=FUNCS, solver="constrained-nonsingular", light=True))
+
+    # ---- the same, for a second graph built from the same edge objects and new vertices
+    for pattern in ("path3", "landmarks"):
+        for shape in by_pattern[pattern] if tier == "thorough" else by_pattern[pattern][:1]:
+            def solve_r(k, shape=shape):
+                solve(k, shape, None, None, reuse_edges=True)
+            obs.append(Ob("C04/global-optimum-of-a-second-graph-from-the-same-edge-objects/%s" % shape["name"], solve_r, scope="shape-bounded",
+                          bound="shape " + shape["name"], funcs=FUNCS, solver="constrained-nonsingular", light=True))
 
     # ---- the same, with all free vertices started from ONE shared array object
     for pattern in ("path3", "cycle3", "landmarks"):
